@@ -216,3 +216,5 @@ _add('C09', 'decides', 'comment_kernel (Kani, attempt) / string_literal_kernel (
 _add('C10', 'decides', 'string_literal_kernel::inside_string (Kani, bounded 1-2 characters, discharged since defect 58): the text of a string literal is the maximal run of characters other than the quote, CR and LF, verbatim; the input is left right behind it.')
 _add('C20', 'decides', 'or(): the second alternative starts at the original position for ANY first alternative, also one that does not undo its own soft failure (defect 60).')
 _add('C15', 'decides', 'gen_paths (Verus, the whole generator on its real bodies): every generated branch lands on a definition of its label at EQUAL linear stack depth (label summaries carry depths, concatenation shifts them by the net effect); theorem: on every path of fall-through and taken generated branches the depth actually reached is the linear depth, so whatever a statement pushes is popped again along every path inside it, for any number of loop iterations (the obligation the SELECT CASE defect 63 fails).')
+_add('C01', 'decides', 'dispatch::interpret_one: JumpIfFalse - what IF / WHILE / DO compile to - branches exactly when the truth value of register A (casts::truth_value: <> 0) is false. gen_balance (DO loops): for UNTIL the branch out of the loop is preceded by the LOGICAL negation of the condition (CopyAToB, LoadIntoA 0, Equal), so the loop is left for any non-zero value (defect 66).')
+_add('C08', 'decides', 'call_args_linter (also under C08): an accepted call passes by reference only arguments of exactly the parameter type - an entire array only for an array parameter of the same element type - so the generator\'s "Cannot cast" panic is unreachable for accepted calls.')
